@@ -107,6 +107,7 @@ TraceMismatch ==
   /\ phase = "run" /\ ~done /\ ~ENABLED TraceStep
   /\ Emit(<<V(Attribution, "lockstep:" \o Trace[l].e, call.id, l,
               [got |-> Got(l), node |-> Top.node.k, pc |-> Top.pc, path |-> PathStr(Top.ip)])>>
+          \o (IF call.pair = "fe" THEN <<V("C14", "lockstep:" \o Trace[l].e, call.id, l, [got |-> Got(l), node |-> Top.node.k, pc |-> Top.pc, path |-> PathStr(Top.ip)])>> ELSE <<>>)
           \o (IF call.pair \in {"c17", "c17s"} THEN <<V("C17", "lockstep:" \o Trace[l].e, call.id, l, [got |-> Got(l), node |-> Top.node.k, pc |-> Top.pc, path |-> PathStr(Top.ip)])>> ELSE <<>>))
   /\ l' = NextRet(l) /\ phase' = "ret" /\ locked' = FALSE
   /\ UNCHANGED <<vars, call, prev>>
@@ -190,6 +191,9 @@ RetVerdicts(R, c, lineNo, tag) ==
         [bad |-> ok /\ R.ismap /\ R.issues = <<>> /\ R.first # <<>>, v |-> mk("C10", "first-without-issue", R.first)],
         [bad |-> ok /\ ~R.sanok, v |-> mk("C10", "sanitize", R.issues)],
         [bad |-> ok /\ ~R.inok, v |-> mk("C19", "input-modified", c.input)],
+        \* C14: every front end is a view of the same record: the result is what the reference says for that record
+        [bad |-> ok /\ tag = "fe" /\ (BagOf(NonPT(ri)) # BagOf(ref) \/ (R.issues = <<>> /\ rd # refd)),
+         v |-> mk("C14", "view-differs-from-record", [fe |-> c.fe, got |-> ri, want |-> ref, dest |-> Differs(rd, refd, DOMAIN rd \cup DOMAIN refd)])],
         \* C11: every issue names the type of the node it belongs to and has a message
         [bad |-> ok /\ \E k \in DOMAIN ri : /\ \E w \in RangeOf(ref) : w.path = ri[k].path /\ w.code = ri[k].code /\ w.ty # ri[k].ty
                                                /\ ~\E w2 \in RangeOf(ref) : w2.path = ri[k].path /\ w2.code = ri[k].code /\ w2.ty = ri[k].ty,
@@ -212,6 +216,16 @@ GroupVerdicts(R, lineNo) ==
   THEN <<V("C09", "order-dependent", call.id, lineNo, [a |-> Proj(prev.issues), b |-> Proj(R.issues)])>>
   ELSE <<>>
 
+\* C14: the renderings of one record through different front ends agree with each other: same destination,
+\* same issues up to the name of the key (compared as bags of (code, type))
+CodeTy(s) == [i \in DOMAIN s |-> [code |-> s[i].code, ty |-> s[i].ty]]
+FEVerdicts(R, lineNo) ==
+  IF /\ SwNestedSourceTag /\ SwFlatNested /\ SwEmptyRecordSourceTag   \* under a named deviation the views differ by that deviation
+     /\ prev.grp = call.grp /\ prev.pair = "fe" /\ call.pair = "fe"
+     /\ (BagOf(CodeTy(R.issues)) # BagOf(CodeTy(prev.issues)) \/ R.dest # prev.dest)
+  THEN <<V("C14", "frontends-disagree", call.id, lineNo, [a |-> CodeTy(prev.issues), b |-> CodeTy(R.issues), destEqual |-> (R.dest = prev.dest)])>>
+  ELSE <<>>
+
 \* C13: Validate(&v) and Parse(toMap(v), &fresh) of a fully populated value agree
 Proj4(s) == [i \in DOMAIN s |-> [path |-> s[i].path, code |-> s[i].code, ty |-> s[i].ty, msg |-> s[i].msg]]
 \* fields the schema does not name are not part of the decoded map: not compared
@@ -232,7 +246,7 @@ TraceRet ==
          \* when the lock-step succeeded the machine's own final state must equal the logged one
          mv == IF locked /\ R.panic = "" /\ (BagOf(Proj(R.issues)) # BagOf(issues) \/ DestFn(R) # dest)
                THEN <<V("C02M", "machine-final", call.id, l, [issues |-> issues])>> ELSE <<>>
-     IN Emit([i \in DOMAIN rv |-> rv[i].v] \o mv \o GroupVerdicts(R, l) \o PairVerdicts(R, l))
+     IN Emit([i \in DOMAIN rv |-> rv[i].v] \o mv \o GroupVerdicts(R, l) \o PairVerdicts(R, l) \o FEVerdicts(R, l))
   /\ prev' = [grp |-> call.grp, pair |-> call.pair, issues |-> Trace[l].issues, dest |-> Trace[l].dest, nilres |-> Trace[l].nilres]
   /\ l' = l + 1 /\ phase' = "idle"
   /\ UNCHANGED <<vars, call, locked>>
